@@ -41,3 +41,26 @@ func TestGeneratedParse(t *testing.T) {
 		t.Logf("%s: %s items=%d cues=%d %s", d.Name, o.Class, o.Items, d.Cues, o.Err)
 	}
 }
+
+func TestLongLineBaseAndNoPMT(t *testing.T) {
+	for _, f := range []string{"srt", "vtt", "ssa"} {
+		b, c := corpus.LongLineBase(f)
+		o := api.ReadOutcome(f, bytes.NewReader(b))
+		if o.Class != "ok" || o.Items != c {
+			t.Fatalf("%s base: %s items=%d want %d %s", f, o.Class, o.Items, c, o.Err)
+		}
+		same := 0
+		for k := 0; k <= corpus.CountLines(b); k++ {
+			o := api.ReadOutcome(f, bytes.NewReader(corpus.InsertLine(b, k, 4, 'L')))
+			if o.Class == "ok" && o.Items == c {
+				same++
+			}
+		}
+		t.Logf("%s: %d of %d insert positions keep %d cues", f, same, corpus.CountLines(b)+1, c)
+	}
+	ts := corpus.FixedTS(1, "a#b", 2)
+	np := corpus.StripTSTables(ts)
+	o := api.ReadOutcome("ts-auto", bytes.NewReader(np))
+	o2 := api.ReadOutcome("ts", bytes.NewReader(np))
+	t.Logf("ts %d bytes -> no-PMT %d bytes: ts-auto=%s (%s) ts=%s items=%d", len(ts), len(np), o.Class, o.Err, o2.Class, o2.Items)
+}
